@@ -170,6 +170,7 @@ class World:
         call.setdefault('sa', [])
         call.setdefault('va', [])
         call.setdefault('xs', [])
+        call.setdefault('tk', [])
         # a call whose target or operand was never created (an earlier creating call was refused
         # by the library) is not executed at all
         if call['t'] and call['t'] not in self.objs:
@@ -190,7 +191,9 @@ class World:
             self.last.pop(d, None)
         ev = {'tid': tid, 'seq': seq, 'op': opname, 't': call['t'], 'drop': drop, 'ia': list(call['ia']),
               'sa': list(call['sa']), 'va': [list(v) for v in call['va']],
-              'xs': [self.describe_operand(x) for x in call['xs']], 'opts': self.opts()}
+              'xs': [self.describe_operand(x) for x in call['xs']],
+              'tk': [{'nm': t['nm'], 'n': t['n'], 'hv': t['hv'], 'val': list(t['val'])} for t in call['tk']],
+              'opts': self.opts()}
         out = {'k': 'ok', 'exc': [], 'ename': '', 'vals': [], 'ids': [], 'alias': []}
         try:
             ret = fn(self, call)
@@ -1033,3 +1036,161 @@ def _peektok(w, c):
     n = N(c['ia'][0])
     r = T(w, c).peek(tokname(name, n, style))
     return Multi([r], [_hint_for(name)])
+
+
+# ---------------------------------------------------------------------------
+# format strings (C05, C18): the call carries the flat token list `tk`; the renderer below picks a
+# spelling (list of strings, multipliers, brackets, keyword lengths, whitespace, 'namen') from `style`.
+
+def _tok_text(w, tk, style, kwargs, idx):
+    if tk['nm'] == 'lit':
+        bits = tk['val'][4:]
+        s = enc.str_of_bits(bits)
+        if style & 32 and len(bits) % 4 == 0 and bits:
+            return '0x' + '%0*x' % (len(bits) // 4, int(s, 2))
+        return '0b' + s
+    name, n = tk['nm'], N(tk['n'])
+    if n is None:
+        t = name
+    elif style & 8 and n >= 0:
+        key = f'k{idx}'
+        kwargs[key] = n
+        t = f'{name}:{key}'
+    elif style & 64 and n >= 0 and not name[-1].isdigit():
+        t = f'{name}{n}'
+    else:
+        t = f'{name}:{n}'
+    if tk['hv']:
+        t += '=' + valtext(tk['val'])
+    if style & 16:
+        t = ' ' + t.replace(':', ' : ') + '  '
+    return t
+
+
+def render_format(w, toks, style):
+    """-> (fmt argument, kwargs).  Meaning-preserving syntax variations only."""
+    kwargs = {}
+    texts = [_tok_text(w, tk, style, kwargs, i) for i, tk in enumerate(toks)]
+    # fold runs of identical tokens into k*tok
+    if style & 2:
+        folded = []
+        i = 0
+        while i < len(texts):
+            j = i
+            while j + 1 < len(texts) and texts[j + 1] == texts[i] and '=' not in texts[i]:
+                j += 1
+            k = j - i + 1
+            folded.append(f'{k}*{texts[i].strip()}' if k > 1 else texts[i])
+            i = j + 1
+        groups = folded
+    else:
+        groups = texts
+    # repeated blocks: if the whole list is m copies of a block, write m*(block)
+    if style & 4 and groups and not (style & 2):
+        n = len(texts)
+        for blk in range(1, n // 2 + 1):
+            if n % blk == 0 and all(texts[i] == texts[i % blk] for i in range(n)) and all('=' not in t for t in texts):
+                groups = [f'{n // blk}*(' + ','.join(t for t in texts[:blk]) + ')']
+                break
+        else:
+            if len(groups) >= 2:
+                groups = ['1*(' + ', '.join(groups[:-1]) + ')', groups[-1]]
+    if style & 1 and len(groups) > 1:
+        half = len(groups) // 2
+        return [', '.join(groups[:half]), ','.join(groups[half:])], kwargs
+    return ', '.join(groups), kwargs
+
+
+def _pack_values(w, c):
+    vals = []
+    for v in c['va']:
+        vals.append(pyval(w, v))
+    return vals
+
+
+@op('pack')
+def _pack(w, c):
+    fmt, kw = render_format(w, c['tk'], c['ia'][0] if c['ia'] else 0)
+    return w.bs.pack(fmt, *_pack_values(w, c), **kw)
+
+
+@op('newfmt')
+def _newfmt(w, c):
+    fmt, kw = render_format(w, c['tk'], (c['ia'][0] if c['ia'] else 0) & ~9)
+    if isinstance(fmt, list):
+        fmt = ','.join(fmt)
+    cls = w.cls(c['sa'][0])
+    if len(c['sa']) > 1 and c['sa'][1] == 'fromstring':
+        return cls.fromstring(fmt)
+    return cls(fmt)
+
+
+def _hints_for_tokens(toks):
+    return [_hint_for(tk['nm']) for tk in toks if tk['nm'] != 'pad']
+
+
+def _parse_result(r, toks):
+    if not isinstance(r, list):
+        return enc.OPAQUE
+    hints = _hints_for_tokens(toks)
+    if len(hints) != len(r):
+        hints = None
+    return Multi(r, hints)
+
+
+def _fmt_for_read(w, c):
+    style = c['ia'][0] if c['ia'] else 0
+    toks = c['tk']
+    if style & 128:
+        # list form with bare integers for 'bits:n' tokens
+        out, kw = [], {}
+        for i, tk in enumerate(toks):
+            if tk['nm'] == 'bits' and N(tk['n']) is not None:
+                out.append(N(tk['n']))
+            else:
+                out.append(_tok_text(w, tk, style & ~16, kw, i).strip())
+        return out, kw
+    return render_format(w, toks, style)
+
+
+@op('unpack')
+def _unpack(w, c):
+    fmt, kw = _fmt_for_read(w, c)
+    return _parse_result(T(w, c).unpack(fmt, **kw), c['tk'])
+
+
+@op('readlist')
+def _readlist(w, c):
+    fmt, kw = _fmt_for_read(w, c)
+    return _parse_result(T(w, c).readlist(fmt, **kw), c['tk'])
+
+
+@op('peeklist')
+def _peeklist(w, c):
+    fmt, kw = _fmt_for_read(w, c)
+    return _parse_result(T(w, c).peeklist(fmt, **kw), c['tk'])
+
+
+def _struct_fmt(sa, style):
+    prefix, codes = sa[0], sa[1:]
+    if style & 2:
+        out, i = '', 0
+        while i < len(codes):
+            j = i
+            while j + 1 < len(codes) and codes[j + 1] == codes[i]:
+                j += 1
+            out += (str(j - i + 1) if j > i else '') + codes[i]
+            i = j + 1
+        return prefix + out
+    return prefix + ''.join(codes)
+
+
+@op('packstruct')
+def _packstruct(w, c):
+    return w.bs.pack(_struct_fmt(c['sa'], c['ia'][0] if c['ia'] else 0), *_pack_values(w, c))
+
+
+@op('unpackstruct')
+def _unpackstruct(w, c):
+    r = T(w, c).unpack(_struct_fmt(c['sa'], c['ia'][0] if c['ia'] else 0))
+    return Multi(r) if isinstance(r, list) else enc.OPAQUE
